@@ -85,6 +85,9 @@ def check(run, prog, tier):
     rule_C(run, prog, cls)
     rule_D(run, prog, cls)
     rule_E(run, prog, cls)
+    run.rule("C08-F", "the stored evolution superoperator transforms covariantly into a basis context (TA; same "
+                      "identity as C04-B4, on the transform method EvolutionSuperOperator resolves to)", minimum=4)
+    rule_F(run, prog, cls)
 
 
 def rule_A(run, prog, cls):
@@ -367,6 +370,40 @@ def rule_D(run, prog, cls):
                        message="'now' must advance by exactly one per call on every path of the %s "
                                "branch (min %d, max %d)" % (name, c[0], c[1]), loc=f.loc(),
                        sample={"branch": name, "advances": list(c)})
+
+
+def rule_F(run, prog, cls):
+    """Inside eigenbasis_of(...) the stored U(t) is presented through the transform method the class
+    inherits.  Identity start, semigroup composition, trace/Hermiticity preservation and agreement
+    with direct propagation hold in the new basis iff U'(t) rho' = (U(t) rho)' with rho' = S^-1 rho S,
+    for the time-resolved (5-index) and the single-time (4-index) storage, with and without an
+    explicit inverse - using only S^-1 S = 1 (complex Hamiltonians give a unitary, not orthogonal, S)."""
+    from . import c04
+    from ..ta import Array
+    rid = "C08-F"
+    f = prog.find_method(cls, "transform")
+    if f is None:
+        raise AnalysisError("EvolutionSuperOperator resolves no transform method")
+    owner = f.cls
+    qual = "%s.%s" % (owner.module.name, owner.name)
+    for with_inv in (False, True):
+        for rt in (0, 1):
+            so, g = c04._run_transform(prog, qual, {"_data": Array.opaque("R", 4 + rt)}, {}, with_inv)
+            c04._tensor_law(_Rid(run, rid), "%s.transform[rank %d] as used by EvolutionSuperOperator" % (owner.name, 4 + rt),
+                            so.get("_data"), rt, g, "covariance-" + ("inv" if with_inv else "noinv"))
+
+
+class _Rid:
+    """forwards obligations of a borrowed rule under this property's rule id"""
+
+    def __init__(self, run, rid):
+        self._run, self._rid = run, rid
+
+    def obligation(self, rid, construct, ok, **kw):
+        return self._run.obligation(self._rid, construct, ok, **kw)
+
+    def __getattr__(self, name):
+        return getattr(self._run, name)
 
 
 def rule_E(run, prog, cls):
